@@ -1,4 +1,4 @@
 From Coq Require Import Extraction ExtrOcamlBasic NArith.
 From DV Require Import Base.Outcome Base.Bytes Base.Names Base.PName C02.Gen C02.Model C02.SchemaModel.
 Extraction Language OCaml.
-Extraction "../build/ml/C02/model.ml" c02_run c02_xrun c02_msg c02_reread fields_of_octets sets_of_fields c02_typed_record.
+Extraction "../build/ml/C02/model.ml" c02_run c02_xrun c02_msg c02_reread fields_of_octets sets_of_fields c02_typed_record c02_typed_option c02_count.
